@@ -738,6 +738,11 @@ func envInt(name string, def int) int {
 }
 
 func doCheck(prop, tier string) int {
+	if tier == "thorough" {
+		os.Setenv("VERIF_DEPTH", "deep") // workers inherit it: larger deployments, longer histories
+	} else {
+		os.Unsetenv("VERIF_DEPTH")
+	}
 	meta, ok := metas[prop]
 	if !ok {
 		die2("unknown or unclaimed property %q", prop)
@@ -1039,6 +1044,11 @@ func doReplay(path string) int {
 	meta, ok := metas[rf.Property]
 	if !ok {
 		die2("unknown property %q", rf.Property)
+	}
+	if rf.Tier == "thorough" {
+		os.Setenv("VERIF_DEPTH", "deep")
+	} else {
+		os.Unsetenv("VERIF_DEPTH")
 	}
 	bi := build(meta.race)
 	if rf.Oracle == "data-race" {
